@@ -3,7 +3,7 @@ import sys, os, importlib, json, threading
 sys.setrecursionlimit(200000)
 threading.stack_size(512 * 1024 * 1024)
 
-LEVELS = {'C13': 'translation_validation'}
+LEVELS = {'C13': 'translation_validation'}      # all others: model_checking (bounded)
 
 
 def run(prop, tier):
